@@ -1,9 +1,249 @@
 import Driver.Util
-open Lean Replicat
+import ReplicatModel.Sym
+open Lean Replicat Replicat.Sym
 namespace Driver.HSym
+abbrev STerm := Replicat.Sym.Term
+
+/-! JSON form of terms: `null` = nil, `{"pub":n}`, `{"sec":n}`, `{"nonce":n}`, `{"key":n}`, `{"pair":[a,b]}`, `{"hash":t}`,
+`{"mac":[k,t]}`, `{"kdf":[k,s,c]}`, `{"enc":[k,n,t]}`; input sugar `{"list":[t…]}` = nil-terminated pair chain. -/
+partial def termOfJson (j : Json) : Except String STerm := do
+  match j with
+  | Json.null => pure .nil
+  | _ =>
+    match j.getObjVal? "pub" with
+    | .ok v => pure (.pub (← v.getNat?))
+    | _ =>
+    match j.getObjVal? "sec" with
+    | .ok v => pure (.sec (← v.getNat?))
+    | _ =>
+    match j.getObjVal? "nonce" with
+    | .ok v => pure (.nonce (← v.getNat?))
+    | _ =>
+    match j.getObjVal? "key" with
+    | .ok v => pure (.key (← v.getNat?))
+    | _ =>
+    match j.getObjVal? "hash" with
+    | .ok v => pure (.hash (← termOfJson v))
+    | _ =>
+    match j.getObjVal? "list" with
+    | .ok v => do
+      let ts ← (← v.getArr?).toList.mapM termOfJson
+      pure (encList id ts)
+    | _ =>
+    match j.getObjVal? "pair" with
+    | .ok v =>
+      match (← v.getArr?).toList with
+      | [a, b] => pure (.pair (← termOfJson a) (← termOfJson b))
+      | _ => throw "pair needs 2 arguments"
+    | _ =>
+    match j.getObjVal? "mac" with
+    | .ok v =>
+      match (← v.getArr?).toList with
+      | [a, b] => pure (.mac (← termOfJson a) (← termOfJson b))
+      | _ => throw "mac needs 2 arguments"
+    | _ =>
+    match j.getObjVal? "kdf" with
+    | .ok v =>
+      match (← v.getArr?).toList with
+      | [a, b, c] => pure (.kdf (← termOfJson a) (← termOfJson b) (← termOfJson c))
+      | _ => throw "kdf needs 3 arguments"
+    | _ =>
+    match j.getObjVal? "enc" with
+    | .ok v =>
+      match (← v.getArr?).toList with
+      | [a, b, c] => pure (.enc (← termOfJson a) (← termOfJson b) (← termOfJson c))
+      | _ => throw "enc needs 3 arguments"
+    | _ => throw "bad term"
+
+def termJson : STerm → Json
+  | .pub n => Json.mkObj [("pub", jnat n)]
+  | .sec n => Json.mkObj [("sec", jnat n)]
+  | .nonce n => Json.mkObj [("nonce", jnat n)]
+  | .key n => Json.mkObj [("key", jnat n)]
+  | .nil => Json.null
+  | .pair a b => Json.mkObj [("pair", Json.arr #[termJson a, termJson b])]
+  | .hash t => Json.mkObj [("hash", termJson t)]
+  | .mac k t => Json.mkObj [("mac", Json.arr #[termJson k, termJson t])]
+  | .kdf k s c => Json.mkObj [("kdf", Json.arr #[termJson k, termJson s, termJson c])]
+  | .enc k n t => Json.mkObj [("enc", Json.arr #[termJson k, termJson n, termJson t])]
+
+def getTerm (j : Json) (k : String) : Except String STerm := do termOfJson (← j.getObjVal? k)
+
+def getTerms (j : Json) (k : String) : Except String (List STerm) := do
+  (← getArr j k).toList.mapM termOfJson
+
+def parseRef (j : Json) : Except String Sym.Ref := do
+  match (← (← j.getArr?).toList.mapM (·.getNat?)) with
+  | [i, c, l, h] => pure ⟨i, c, l, h⟩
+  | _ => throw "ref must be [index, counter, lo, hi]"
+
+def parseSymFile (j : Json) : Except String Sym.FileRec := do
+  pure ⟨← getTerm j "path", ← (← getArr j "refs").toList.mapM parseRef, ← getTerm j "digest", ← getTerm j "md"⟩
+
+def parseData (j : Json) : Except String Sym.Data := do
+  pure ⟨← getNat j "ts", ← (← getArr j "files").toList.mapM parseSymFile, ← getTerm j "note"⟩
+
+def symErrJson : Sym.Err → Json
+  | .decryption => Json.str "decryption"
+  | .corrupted => Json.str "corrupted"
+  | .missing => Json.str "missing"
+  | .malformed => Json.str "malformed"
+
+def pairsJson (l : List (STerm × STerm)) : Json := Json.arr (l.map (fun e => Json.arr #[termJson e.1, termJson e.2])).toArray
+
+def parseSymOp (j : Json) : Except String Sym.Op := do
+  match (← getStr j "kind") with
+  | "add_key" => pure (.addKey (← getNat j "base") (← getBool j "shared") (← getTerm j "kdfcfg") (← getTerm j "shcfg") (← getTerm j "pw"))
+  | "snapshot" => pure (.snapshot (← getNat j "user") (← getTerms j "chunks") (← parseData (← j.getObjVal? "data")))
+  | "remove" => pure (.remove (← getTerms j "locs"))
+  | k => throw s!"unknown op kind {k}"
+
+/-- fixed symbolic keys of the `sym.restore` world -/
+def worldProps (encrypted : Bool) : Props :=
+  if encrypted then ⟨true, userKeyOf (.key 4) (.nonce 5), ⟨.pub 9, .key 0, .key 1, .key 2, .key 3⟩⟩
+  else ⟨false, userKeyOf .nil .nil, noShared⟩
+
+structure SnapDesc where
+  table : List Nat
+  data : Sym.Data
+
+def snapStoredOf (p : Props) (s : Nat) (d : SnapDesc) : STerm :=
+  snapshotStored p (.nonce (10000 + 2 * s)) (.nonce (10001 + 2 * s)) (encTable (d.table.map (fun i => digest (.sec i)))) (encData d.data)
+
+def worldObj (p : Props) (snaps : List SnapDesc) (j : Json) : Except String STerm := do
+  match (← j.getArr?).toList with
+  | [Json.str "chunk", i] => do let i ← i.getNat?; pure (chunkObject p (.nonce (100 + i)) (.sec i))
+  | [Json.str "snap", s] => do
+    let s ← s.getNat?
+    match snaps[s]? with
+    | some d => pure (snapStoredOf p s d)
+    | none => throw "unknown snapshot"
+  | [Json.str "garbage", g] => do pure (.pub (1000000 + (← g.getNat?)))
+  | [Json.str "config"] => pure (.pub 10)
+  | _ => throw "bad object descriptor"
+
+def worldLoc (p : Props) (snaps : List SnapDesc) (j : Json) : Except String STerm := do
+  match (← j.getArr?).toList with
+  | [Json.str "chunk", i] => do pure (chunkLoc p (digest (.sec (← i.getNat?))))
+  | [Json.str "snap", s] => do
+    let s ← s.getNat?
+    match snaps[s]? with
+    | some d => pure (snapLoc p (snapshotName (snapStoredOf p s d)))
+    | none => throw "unknown snapshot"
+  | [Json.str "snapalias", s, g] => do
+    -- the name of snapshot `s` filed under a tag the adversary made up
+    let s ← s.getNat?
+    match snaps[s]? with
+    | some d => pure (.pair prefixSnap (.pair (.pub (2000000 + (← g.getNat?))) (snapshotName (snapStoredOf p s d))))
+    | none => throw "unknown snapshot"
+  | [Json.str "other", g] => do pure (.pair (.pub 7) (.pub (← g.getNat?)))
+  | [Json.str "config"] => pure configLoc
+  | _ => throw "bad location descriptor"
+
+def partsJson (ps : List Part) : Json := Json.arr (ps.map (fun x => Json.arr #[termJson x.1, jnat x.2.1, jnat x.2.2])).toArray
+
 /-- requests `sym.*` (see DESIGN.md Appendix A) -/
 def handleSym (op : String) (j : Json) : Except String Json := do
   match op with
+  | "sym.public" =>
+    let ts ← getTerms j "terms"
+    pure (Json.mkObj [("public", Json.arr (ts.map (fun t => Json.bool (Public t))).toArray),
+                      ("keyed", Json.arr (ts.map (fun t => Json.bool (nameKeyed t))).toArray)])
+  | "sym.run" =>
+    let i ← j.getObjVal? "init"
+    let a : InitArgs := ⟨← getBool i "encrypted", ← getTerm i "cfg", ← getTerm i "kdfcfg", ← getTerm i "shcfg", ← getTerm i "pw"⟩
+    -- `remove_at` = removal of the objects uploaded by the i-th uploads (index into the uploads so far, key files not counted):
+    -- the harness cannot name the model's fresh values, so it names locations by the upload that created them
+    let s ← (← getArr j "ops").toList.foldlM (init := initSt a) fun s oj => do
+      match (← getStr oj "kind") with
+      | "remove_at" =>
+        let idx ← getNatList oj "idx"
+        let ups := s.log.filter (fun e => match e.1 with | .pair pre _ => pre != prefixKey | _ => true)
+        pure (step s (.remove (idx.filterMap (fun i => ups[i]?.map (·.1)))))
+      | _ => do pure (step s (← parseSymOp oj))
+    pure (Json.mkObj [("log", pairsJson s.log), ("uses", pairsJson s.uses), ("next", jnat s.next),
+                      ("store", pairsJson s.store), ("users", jnat s.users.length)])
+  | "sym.restore" =>
+    let p := worldProps (← getBool j "encrypted")
+    let snaps ← (← getArr j "snaps").toList.mapM fun x => do
+      pure (⟨← getNatList x "table", ← parseData (← x.getObjVal? "data")⟩ : SnapDesc)
+    let store ← (← getArr j "store").toList.mapM fun e => do
+      match (← e.getArr?).toList with
+      | [l, o] => pure ((← worldLoc p snaps l), (← worldObj p snaps o))
+      | _ => throw "bad store entry"
+    let target ← getNat j "target"
+    let tname ← match snaps[target]? with
+      | some d => pure (snapshotName (snapStoredOf p target d))
+      | none => throw "unknown target"
+    let loadR := loadAll p tname (snapEntries store)
+    let chunkErrs : List Json := match loadR with
+      | .error _ => []
+      | .ok bodies =>
+        let sel := selectFiles (isort newestFirst bodies) []
+        (sel.flatMap fun x => (isort refLE x.2.refs).filterMap fun r =>
+          match x.1[r.index]? with
+          | none => some (Json.str "malformed")
+          | some d => match fetchChunk p store d with
+            | .error e => some (symErrJson e)
+            | .ok _ => none)
+    let base := [("load", match loadR with | .ok bs => jnat bs.length | .error e => symErrJson e),
+                 ("chunk_errors", Json.arr chunkErrs.toArray)]
+    match restore p store tname with
+    | .ok out => pure (Json.mkObj (base ++ [("outcome", Json.str "ok"),
+        ("files", Json.arr (out.map (fun w => Json.mkObj [("path", termJson w.1), ("parts", partsJson w.2)])).toArray)]))
+    | .error e => pure (Json.mkObj (base ++ [("outcome", Json.str "error"), ("error", symErrJson e)]))
+  | "sym.unlock" =>
+    match unlock (← getTerm j "keyfile") (← getTerm j "pw") with
+    | .ok (uk, sh) => pure (Json.mkObj [("outcome", Json.str "ok"), ("userkey", termJson uk), ("private", termJson (privateTerm sh))])
+    | .error e => pure (Json.mkObj [("outcome", Json.str "error"), ("error", symErrJson e)])
+  | "sym.load_snapshot" =>
+    let p : Props := ⟨← getBool j "encrypted", ← getTerm j "userkey",
+      ⟨.nil, ← getTerm j "shared_key", ← getTerm j "shared_params", ← getTerm j "mac_key", .nil⟩⟩
+    match loadSnapshot p (← getTerm j "tag") (← getTerm j "name") (← getTerm j "stored") with
+    | .error e => pure (Json.mkObj [("outcome", Json.str "error"), ("error", symErrJson e)])
+    | .ok none => pure (Json.mkObj [("outcome", Json.str "skipped")])
+    | .ok (some (table, d)) => pure (Json.mkObj [("outcome", Json.str "ok"), ("table", Json.arr (table.map termJson).toArray),
+        ("data", match d with | some dd => termJson (encData dd) | none => Json.null), ("has_data", Json.bool d.isSome)])
+  | "sym.verify_chunk" =>
+    let p : Props := ⟨← getBool j "encrypted", .nil,
+      ⟨.nil, ← getTerm j "shared_key", ← getTerm j "shared_params", ← getTerm j "mac_key", .nil⟩⟩
+    let d ← getTerm j "digest"
+    let loc := chunkLoc p d
+    match verifyChunk p d (← getTerm j "obj") with
+    | .ok m => pure (Json.mkObj [("outcome", Json.str "ok"), ("plain", termJson m), ("loc", termJson loc)])
+    | .error e => pure (Json.mkObj [("outcome", Json.str "error"), ("error", symErrJson e), ("loc", termJson loc)])
+  | "sym.b64" =>
+    let bs ← getBytes j "bytes"
+    let txt := B64.encode bs
+    let back := B64.decode txt
+    let extra ← match j.getObjVal? "text" with
+      | .ok (Json.str s) => pure [("decoded", match B64.decode (s.toList.map Char.toNat) with
+          | some b => Json.str (hex b) | none => Json.null)]
+      | _ => pure []
+    pure (Json.mkObj ([("text", Json.str (String.ofList (txt.map Char.ofNat))),
+                       ("roundtrip", Json.bool (back == some bs)),
+                       ("hint_key", Json.str Gen.bytesHintKey)] ++ extra))
+  | "sym.type_reverse" =>
+    -- value: {"kind": "obj1", "key": k, "text": s} | {"kind": "other"}
+    match (← getStr j "kind") with
+    | "obj1" =>
+      let k ← getStr j "key"
+      let s ← getStr j "text"
+      match typeReverse (.obj1 k (.str (s.toList.map Char.toNat))) with
+      | some (.bytes b) => pure (Json.mkObj [("result", Json.str "bytes"), ("bytes", Json.str (hex b))])
+      | some _ => pure (Json.mkObj [("result", Json.str "unchanged")])
+      | none => pure (Json.mkObj [("result", Json.str "invalid")])
+    | _ => pure (Json.mkObj [("result", Json.str "unchanged")])
+  | "sym.legacy" =>
+    -- meta: [[key, value id]…]
+    let m ← (← getArr j "meta").toList.mapM fun e => do
+      match (← e.getArr?).toList with
+      | [k, v] => pure ((← k.getStr?), (← v.getNat?))
+      | _ => throw "bad meta entry"
+    match restoreTimes m with
+    | .ns a t => pure (Json.mkObj [("kind", Json.str "ns"), ("atime", jnat a), ("mtime", jnat t)])
+    | .times a t => pure (Json.mkObj [("kind", Json.str "times"), ("atime", jnat a), ("mtime", jnat t)])
+    | .keyError => pure (Json.mkObj [("kind", Json.str "key_error")])
   | _ => throw s!"unknown op {op}"
 
 end Driver.HSym
